@@ -946,6 +946,7 @@ func E3RayHull(c *core.Ctx, r *core.Report) {
 // E3BoundsExtrema: the interior extrema of curves are each examined independently, and the arc
 // extreme angles pair the radii with the right trigonometric factor.
 func E3BoundsExtrema(c *core.Ctx, r *core.Report) {
+	r.Rule("E3.derivative-solved", "Path.Bounds: every call of the derivative's root solver sits directly in the body of its command case, under no if, inner switch or loop: a guard leaves the interior extremes unexamined on the other path")
 	r.Rule("E3.extrema-independent", "Path.Bounds: every root returned by the derivative's root solver (and the single root of the quadratic case) guards, in an if statement placed directly in the case body (not in the else-branch of another root's test), folds into both the min and the max accumulator of its axis; a curve can have two interior extrema on one axis")
 	r.Rule("E3.arc-extrema", "Path.Bounds, arc case: with x(θ)=cx+rx·cosθ·cosφ−ry·sinθ·sinφ and y(θ)=cy+rx·cosθ·sinφ+ry·sinθ·cosφ the extreme angles are atan2(∓ry·sinφ, rx·cosφ) and atan2(ry·cosφ, rx·sinφ): in both Atan2 calls the first argument carries ry and the second rx, and the two calls use sinφ/cosφ crosswise")
 	p := c.MustPkg("")
@@ -991,6 +992,7 @@ func E3BoundsExtrema(c *core.Ctx, r *core.Report) {
 		return found
 	}
 	roots := 0
+	solverCalls := 0
 	for _, cc := range cmdSwitchClauses(p, fd) {
 		label := core.CaseLabel(info, cc)
 		// segments of the case body delimited by root-solver assignments
@@ -1000,25 +1002,79 @@ func E3BoundsExtrema(c *core.Ctx, r *core.Report) {
 		}
 		var sets []rootSet
 		for i, s := range cc.Body {
-			as, ok := s.(*ast.AssignStmt)
-			if !ok || len(as.Rhs) != 1 {
-				continue
+			// the assignment may sit inside a guard (reported by E3.derivative-solved); the root tests follow the
+			// top-level statement that holds it
+			ast.Inspect(s, func(n ast.Node) bool {
+				as, ok := n.(*ast.AssignStmt)
+				if !ok || len(as.Rhs) != 1 {
+					return true
+				}
+				call, ok := core.Unparen(as.Rhs[0]).(*ast.CallExpr)
+				if !ok {
+					return true
+				}
+				if f := core.CalleeOf(info, call); f == nil || f.Name() != "solveQuadraticFormula" {
+					return true
+				}
+				var names []string
+				for _, l := range as.Lhs {
+					if id, ok := l.(*ast.Ident); ok {
+						names = append(names, id.Name)
+					}
+				}
+				sets = append(sets, rootSet{names, i})
+				return true
+			})
+		}
+		// every call of the solver in the case body is unconditional: one that runs only under a guard leaves
+		// the roots unknown on the other path, and a cubic's derivative can vanish twice inside the segment
+		// whatever its signs at the two ends
+		top := map[ast.Stmt]bool{}
+		for _, s := range cc.Body {
+			top[s] = true
+		}
+		var stack []ast.Node
+		ast.Inspect(cc, func(n ast.Node) bool {
+			if n == nil {
+				stack = stack[:len(stack)-1]
+				return true
 			}
-			call, ok := core.Unparen(as.Rhs[0]).(*ast.CallExpr)
+			stack = append(stack, n)
+			call, ok := n.(*ast.CallExpr)
 			if !ok {
-				continue
+				return true
 			}
 			if f := core.CalleeOf(info, call); f == nil || f.Name() != "solveQuadraticFormula" {
-				continue
+				return true
 			}
-			var names []string
-			for _, l := range as.Lhs {
-				if id, ok := l.(*ast.Ident); ok {
-					names = append(names, id.Name)
+			solverCalls++
+			key := fmt.Sprintf("canvas.Path.Bounds|%s|solver call %d", label, solverCalls)
+			guard := ""
+			for i := len(stack) - 2; i >= 0; i-- {
+				switch g := stack[i].(type) {
+				case *ast.IfStmt:
+					guard = "if " + types.ExprString(g.Cond)
+				case *ast.CaseClause:
+					if stack[i] != ast.Node(cc) {
+						guard = "a case of an inner switch"
+					}
+				case *ast.ForStmt, *ast.RangeStmt:
+					guard = "a loop"
+				}
+				if guard != "" {
+					break
+				}
+				if st, ok := stack[i].(ast.Stmt); ok && top[st] {
+					break
 				}
 			}
-			sets = append(sets, rootSet{names, i})
-		}
+			if guard == "" {
+				r.OK("E3.derivative-solved", key, c.Pos(call.Pos()), "")
+			} else {
+				r.Fail("E3.derivative-solved", key, c.Pos(call.Pos()), fmt.Sprintf("the roots of the derivative are only computed under `%s`: on the other path the interior extremes are never examined, and the derivative of a cubic (a parabola) can vanish twice inside the segment whatever the tangents at its two ends, so the box can cut through the curve", guard))
+			}
+			return true
+		})
 		for si, rs := range sets {
 			end := len(cc.Body)
 			if si+1 < len(sets) {
@@ -1143,6 +1199,8 @@ func E3BoundsExtrema(c *core.Ctx, r *core.Report) {
 	}
 	r.Count("E3.derivative-roots", roots)
 	r.Floor("E3.derivative-roots", 4)
+	r.Count("E3.derivative-solver-calls", solverCalls)
+	r.Floor("E3.derivative-solver-calls", 2)
 	r.Floor("E3.arc-atan2", 1)
 }
 
